@@ -561,17 +561,18 @@ func c01burn(w *World, r *Report, burnSites []*Site) {
 			if !good {
 				continue
 			}
-			// stores to Remains in fn
+			// stores to Remains in fn or in a helper it calls (values in fn's terms)
 			nst := 0
-			for _, fs := range FieldStores(fn) {
+			for _, sb := range w.storesBelow(fn, "State", 2, nil) {
+				fs := sb.FS
 				if fs.Field != "Remains" {
 					continue
 				}
 				nst++
-				ex2, ok := fs.Store.Val.(*ssa.Extract)
+				ex2, ok := sb.Val.(*ssa.Extract)
 				same := ok && ex2.Tuple == ex.Tuple && ex2.Index == 1
 				r.Check(same, "C01.burn1", funcName(fn)+": Remains := change of the same TruncateDecimal", w.Pos(fs.Store.Pos()), "result #1 of the same call", "state.Remains is overwritten with something else than the change of the burned amount")
-				r.Check(OnSuccessEdge(fn, fs.Store, siteValue(u)), "C01.burn1", funcName(fn)+": Remains updated only when the burn succeeded", w.Pos(fs.Store.Pos()), "dominated by the nil edge of the burn's error", "state.Remains is reduced although the burn may have failed")
+				r.Check(OnSuccessEdge(fn, sb.Top(), siteValue(u)), "C01.burn1", funcName(fn)+": Remains updated only when the burn succeeded", w.Pos(fs.Store.Pos()), "dominated by the nil edge of the burn's error", "state.Remains is reduced although the burn may have failed")
 			}
 			if nst == 0 {
 				r.Bad("C01.burn1", funcName(fn)+": Remains reduced after burning", w.Pos(fn.Pos()), "coins are burned but the recorded remainder is not reduced")
